@@ -486,6 +486,34 @@ func (fx *FX) evalCall(env *Env, c ECall) Val {
 				}
 			}
 		}
+	case "respstatus", "respnbody", "respbody", "respctype": // ghost response state of a *fasthttp.RequestCtx
+		if p, ok := argv(0).(VPtr); ok {
+			switch c.Fn {
+			case "respstatus":
+				return VInt{sel(sel(env.st.H, p.Ref), num(ctxStatus))}
+			case "respnbody":
+				return VInt{sel(sel(env.st.H, p.Ref), num(ctxNBody))}
+			case "respbody":
+				return VSeq{sel(sel(env.st.Hs, p.Ref), num(ctxBody))}
+			}
+			return VSeq{sel(sel(env.st.Hs, p.Ref), num(ctxCType))}
+		}
+	case "ispost", "isget", "reqbody", "reqpath", "reqquery": // ghost readings of the request
+		if p, ok := argv(0).(VPtr); ok {
+			switch c.Fn {
+			case "ispost", "isget":
+				return VBool{app(SBool, c.Fn, p.Ref)}
+			case "reqquery":
+				return VSeq{app(SSeq, "reqquery", p.Ref, seq(1))}
+			}
+			return VSeq{app(SSeq, c.Fn, p.Ref)}
+		}
+	case "jok": // jok(text, TypeName): json.Unmarshal of text into a TypeName succeeds
+		if id, ok := c.Args[1].(EIdent); ok {
+			if tag, ok := fx.u.tagByName(id.Name); ok {
+				return VBool{app(SBool, "jok", seq(0), num(tag))}
+			}
+		}
 	case "jstype", "jsint", "jsstring", "jsbool": // readings of a js.Value (or of an `any` holding one)
 		var ref T
 		switch a := argv(0).(type) {
